@@ -1002,6 +1002,133 @@ def part_bc(ctx, n, n_exact):
     ctx.cov["oracle"] = stats
 
 
+# ---------------------------------------------------------------- exchange operator X in a vectorised sequence
+def gen_xcase(rng):
+    """grid (n, 2): axis 0 = batch of mixing times / relaxation values, axis 1 = the two exchanging compartments"""
+    n = rng.choice([2, 3, 3])
+    def per_comp(lo, hi, zero_p=0.0):
+        shape = rng.choice([(1, 2), (n, 2)])
+        v = rnd_values(rng, lo, hi, shape)
+        if zero_p and rng.random() < zero_p:
+            v[tuple(rng.randrange(d) for d in shape)] = 0.0
+        return v.tolist()
+    taus = [float(rng.choice([0.0, 0.0, 2.0, 5.0, 20.0])) for _ in range(n)]
+    if rng.random() < 0.5 and 0.0 not in taus:
+        taus[rng.randrange(n)] = 0.0       # boundary value inside the batch
+    x = {"tau": taus if rng.random() < 0.85 else taus[0], "khi": float(rng.choice([0.01, 0.05, 0.2])),
+         "T1": per_comp(500, 1500) if rng.random() < 0.8 else None, "T2": per_comp(30, 120) if rng.random() < 0.8 else None,
+         "g": per_comp(-0.05, 0.05, 0.5) if rng.random() < 0.5 else None}
+    ops = [("T", float(rng.choice([40, 60, 90])), 90.0)]
+    for _ in range(rng.randint(2, 5)):
+        k = rng.choice(["X", "X", "S", "T", "Tb", "E"])
+        if k == "X":
+            ops.append(("X",))
+        elif k == "S":
+            ops.append(("S", 1))
+        elif k == "T":
+            ops.append(("T", float(rng.choice([30, 60, 160])), float(rng.choice([0, 90]))))
+        elif k == "Tb":
+            ops.append(("Tb", rnd_values(rng, 20, 160, (n,)).tolist(), 0.0))
+        else:
+            ops.append(("E", 5.0, rnd_values(rng, 500, 1500, (n,)).tolist(), 60.0))
+    if not any(o[0] == "X" for o in ops):
+        ops.append(("X",))
+    ops += [("S", 1), ("ADC",)]
+    return {"n": n, "x": x, "ops": ops}
+
+
+def build_xseq(xc, i=None):
+    import epgpy as epg
+    x = xc["x"]
+
+    def pick(v):          # per-compartment parameter of grid row i
+        if v is None:
+            return None
+        a = np.asarray(v, dtype=float)
+        return a if i is None else a[i if a.shape[0] > 1 else 0]
+    tau = x["tau"] if i is None or np.ndim(x["tau"]) == 0 else x["tau"][i]
+    kw = {nm: pick(x[nm]) for nm in ("T1", "T2", "g") if x[nm] is not None}
+    xop = epg.X(np.asarray(tau, dtype=float) if i is None else float(tau), x["khi"], axis=1 if i is None else 0, **kw)
+    seq = []
+    for o in xc["ops"]:
+        if o[0] == "X":
+            seq.append(xop)
+        elif o[0] == "S":
+            seq.append(epg.S(o[1]))
+        elif o[0] == "T":
+            seq.append(epg.T(o[1], o[2]))
+        elif o[0] == "Tb":
+            seq.append(epg.T(np.asarray(o[1])[:, None] if i is None else o[1][i], o[2]))
+        elif o[0] == "E":
+            seq.append(epg.E(o[1], np.asarray(o[2])[:, None] if i is None else o[2][i], o[3]))
+        else:
+            seq.append(epg.ADC)
+    return seq
+
+
+def oracle_x(xc):
+    import epgpy as epg
+    n = xc["n"]
+    try:
+        seq = build_xseq(xc)
+        outs = [np.asarray(a) for a in epg.simulate(seq, probe=["F0", "Z0"])]
+    except Exception as e:
+        try:
+            epg.simulate(build_xseq(xc, 0), probe=["F0", "Z0"])
+        except type(e):
+            return None
+        except Exception:
+            pass
+        return ("exception", {"type": type(e).__name__, "msg": str(e)[:200]})
+    nacq = sum(1 for o in xc["ops"] if o[0] == "ADC")
+    x = xc["x"]
+    batched = np.ndim(x["tau"]) > 0 or any(o[0] in ("Tb", "E") for o in xc["ops"]) or \
+        any(x[nm] is not None and len(x[nm]) > 1 for nm in ("T1", "T2", "g"))
+    n = n if batched else 1      # rows of the grid the property defines
+    if tuple(epg.getshape(seq)) != (n, 2) or any(a.shape != (nacq, n, 2) for a in outs):
+        return ("shape", {"getshape": list(epg.getshape(seq)), "out": [list(a.shape) for a in outs], "expected": [nacq, n, 2]})
+    for i in range(n):
+        refs = [np.asarray(a) for a in epg.simulate(build_xseq(xc, i), probe=["F0", "Z0"])]
+        for pi, (a, r) in enumerate(zip(outs, refs)):
+            got, r = a[:, i], r.reshape(a[:, i].shape)
+            if not (np.all(np.isfinite(got)) or not np.all(np.isfinite(r))) or \
+                    not np.all(np.abs(got - r) <= 1e-10 * (1 + np.max(np.abs(r)))):
+                return ("value", {"probe": ["F0", "Z0"][pi], "row": i, "tau": xc["x"]["tau"], "vector": str(got.ravel()[:4]), "scalar": str(r.ravel()[:4])})
+    return None
+
+
+def part_x(ctx, n):
+    rng = ctx.rng
+    stats = {"cases": 0, "with_tau0_in_batch": 0, "failing": 0}
+    reported = set()
+    for _ in range(n):
+        xc = gen_xcase(rng)
+        stats["cases"] += 1
+        t = xc["x"]["tau"]
+        stats["with_tau0_in_batch"] += int(np.ndim(t) > 0 and 0.0 in t and any(v != 0 for v in t))
+        ctx.count(("x", str(xc)))
+        res = oracle_x(xc)
+        if res is None:
+            continue
+        stats["failing"] += 1
+        changed = True                      # shrink: drop operators while the same kind of failure remains
+        while changed:
+            changed = False
+            for j in range(len(xc["ops"]) - 1):
+                c = dict(xc, ops=xc["ops"][:j] + xc["ops"][j + 1:])
+                r = oracle_x(c) if any(o[0] == "X" for o in c["ops"]) else None
+                if r is not None and r[0] == res[0]:
+                    xc, res, changed = c, r, True
+                    break
+        tau0 = bool(np.ndim(xc["x"]["tau"]) > 0 and 0.0 in xc["x"]["tau"])
+        sig = {"site": "X-batched", "kind": res[0], "tau0_in_batch": tau0}
+        if str(sig) not in reported:
+            reported.add(str(sig))
+            ctx.report("vectorised simulate() with the exchange operator X differs from the stack of scalar runs (%s): %s" % res,
+                       {"xcase": xc, "result": res}, found_input=True, signature=sig)
+    ctx.cov["exchange_stream"] = stats
+
+
 # ---------------------------------------------------------------- listed witnesses (always replayed)
 def witness_inplace():
     import epgpy as epg
@@ -1047,6 +1174,7 @@ def run(ctx):
                    signature={"site": "matrix_prod-inplace", "shapes": "op(1,m) state(k,m)"})
     ctx.notes["regression_witnesses"] = "DESIGN 9.14 (1,m)x(k,m) and axes-inserted-twice (1,1,2)x(2,1,2,1): replayed"
     part_bc(ctx, 85 if quick else 1500, 25 if quick else 400)
+    part_x(ctx, 25 if quick else 400)
     ctx.cov["trusted_base"] += [
         "hand-written model Model/Vector.v tied to epgpy.common / scalar_prod / matrix_prod / prepare / getshape by exact correspondence of shapes, raise/no-raise and of the elements read (index-encoded arrays)",
         "numpy broadcasting, in-place ufunc and gufunc out= rules as modelled (np_bshape, np_proj, np_inplace_ok, np_out_ok), validated by the same correspondence",
@@ -1068,6 +1196,12 @@ def replay(ctx, rp):
         bad = not np.allclose(v, ref, rtol=1e-12, atol=1e-14)
         print("replay: VIOLATION reproduced: %s vs %s" % (np.round(v.real, 5).tolist(), np.round(ref.real, 5).tolist()) if bad else "replay: vectorised run equals the scalar runs")
         return 1 if bad else 0
+    if "xcase" in rp:
+        xc = rp["xcase"]
+        xc["ops"] = [tuple(o) for o in xc["ops"]]
+        res = oracle_x(xc)
+        print("replay: VIOLATION reproduced: %s" % (res,) if res else "replay: vectorised run equals the scalar runs")
+        return 1 if res else 0
     if "shape_case" in rp:
         print("replay: shape correspondence case %s — rerun ./check C07" % rp["shape_case"].get("what"))
         return 1
